@@ -111,6 +111,11 @@ def parse_stats(text):
     cov = re.findall(r"cov: (\d+) ft: (\d+) corp: (\d+)", text)
     if cov:
         st["cov"], st["ft"], st["corp"] = map(int, cov[-1])
+    # -fork mode has no final stats block: its status lines read "#<total runs>: cov: .. ft: .. corp: .."
+    fork = re.findall(r"^#(\d+): cov: (\d+) ft: (\d+) corp: (\d+)", text, re.M)
+    if fork and "number_of_executed_units" not in st:
+        st["number_of_executed_units"] = int(fork[-1][0])
+        st["new_units_added"] = max(0, int(fork[-1][3]) - int(fork[0][3])) if len(fork) > 1 else int(fork[-1][3])
     return st
 
 
@@ -144,11 +149,16 @@ def campaign(name, exe, work, seed, runs, max_len, corpus_dirs, secs=0, jobs=1):
     with open(lp, errors="replace") as f:
         text = f.read()
     st = parse_stats(text)
-    try:
-        with open(env["VERIF_FUZZ_STATS"]) as f:
-            st["counters"] = json.load(f)
-    except Exception:
-        pass
+    ctr = {}
+    for cf_ in glob.glob(env["VERIF_FUZZ_STATS"] + ".*"):
+        try:
+            with open(cf_) as f:
+                for k, v in json.load(f).items():
+                    ctr[k] = ctr.get(k, 0) + int(v)
+        except Exception:
+            pass
+    if ctr:
+        st["counters"] = ctr
     arts = sorted(glob.glob(os.path.join(wd, "art", "*")))
     newunits = sorted(glob.glob(os.path.join(wd, "corpus", "*")))
     return dict(name=name, rc=rc, stats=st, artifacts=arts, log=text, wall=time.time() - t0, new_units=newunits)
@@ -288,3 +298,42 @@ def first_report_line(out):
         if "ORACLE-VIOLATION" in l or "ERROR: AddressSanitizer" in l or "runtime error:" in l or "ERROR: libFuzzer" in l:
             return l.strip()[:300]
     return "(see log)"
+
+
+def extra_campaign(prop, tier, spec, seed):
+    """coverage-guided differential campaign that complements a rapidcheck check (same reference oracle inside the target).
+    Returns (violations, stats dict)."""
+    d = _d()
+    fx = spec.get("fuzz_extra")
+    if not fx or tier not in fx:
+        return [], None
+    t = fx["target"]
+    exe = build_target(t)
+    violations = []
+    work = d.scratch_dir(prop + "-fuzzx")
+    try:
+        for f in sorted(glob.glob(os.path.join(d.REGRESSIONS, prop, t, "*"))):
+            status, secs, out = run_unit(exe, f, 300)
+            if status != "ok":
+                d.log(out[-2500:])
+                violations.append((f, "regression input %s on fuzz target %s: %s" % (status, t, first_report_line(out))))
+        cfgt = fx[tier]
+        r = campaign(t, exe, work, seed * 1000 + 77, cfgt.get("runs", 0), TARGETS[t][1 if tier == "quick" else 2], [os.path.join(d.VERIF, "corpus", t)], cfgt.get("secs", 0), cfgt.get("jobs", 1))
+        for a in r["artifacts"]:
+            b = os.path.basename(a)
+            if b.split("-")[0] not in ("crash", "leak"):
+                continue
+            status, secs, out = run_unit(exe, a, 300)
+            if status == "ok":
+                continue
+            dst = d.save_replay(prop, tier, seed, a, "-%s-%s" % (t, b[:40]))
+            d.log("\n".join(l for l in out.splitlines() if "ORACLE" in l or l.startswith("  a=") or l.startswith("  b=") or "ERROR:" in l)[:2000])
+            violations.append((dst, "fuzz target %s: %s" % (t, first_report_line(out))))
+        st = r["stats"]
+        stats = dict(target=t, executions=st.get("number_of_executed_units", 0), new_units=st.get("new_units_added", 0), coverage_edges=st.get("cov", 0),
+                     counters=st.get("counters", {}), wall_s=round(r["wall"], 1))
+        if r["rc"] != 0 and not r["artifacts"]:
+            stats["note"] = "libFuzzer exited with %s without an artifact" % r["rc"]
+        return violations, stats
+    finally:
+        shutil.rmtree(work, ignore_errors=True)
